@@ -1,13 +1,13 @@
-\* C18 / Reloc.tla -- (G) every complete session (one load bias per object: the loader's choice is not
+\* C18 / Reloc.tla -- (G, quick tier 1/2) every complete session with at most ONE request (made before start) (one load bias per object: the loader's choice is not
 \* controllable in the replay) printed as JSON with the REFERENCE's expectations at every prompt
 CONSTANTS
     ExeModes = {"pie", "nopie"}
     LibModes = {"startup", "dlopen"}
-    SessModes = {"attach_pre", "attach_mid"}
+    SessModes = {"launch"}
     LibBiases = {300}
     LibBases = {0, 60}
     Kinds = {"fn", "line", "addr"}
-    MaxReq = 2
+    MaxReq = 1
     OffsetRule = "bias"
     ReloadRule = "rearm"
     EarlyAddrRule = "defer"
